@@ -1004,3 +1004,104 @@ def k3_ok(observations) -> bool:
         if exp is None or obs != exp:
             return False
     return True
+
+
+# ----------------------------------------------------------------------------- K4: histories of real cases in one suite run
+
+def _case(conf=(), setup=(), act=('% act-probe',), ba=('% ba-probe',), asrt=('% assert-probe',), cleanup=('% cleanup-probe',)) -> str:
+    ls = []
+    for name, lines in (('conf', conf), ('setup', setup), ('act', act), ('before-assert', ba), ('assert', asrt),
+                        ('cleanup', cleanup)):
+        if lines:
+            ls.append('[%s]' % name)
+            ls += list(lines)
+    return ''.join(l + '\n' for l in ls)
+
+
+FIRST = '% first-probe'
+SYM = 'VSYM_C17_S'
+
+# name -> text of the case file.  Every case starts its [setup] with the probe `first-probe` and probes in every phase.
+HISTORY_CASES = {
+    'observer': _case(setup=(FIRST, 'def string %s = own' % SYM, '%% own-symbol @[%s]@' % SYM)),
+    'reference-to-undefined-symbol': _case(setup=(FIRST, '%% leaked-symbol @[%s]@' % SYM)),
+    'env': _case(setup=(FIRST, 'env VSYM_C17_LEAK = leak', 'env unset VSYM_C17_BASE', '% after')),
+    'env-late': _case(cleanup=('env VSYM_C17_LEAK = leak', 'env unset VSYM_C17_BASE', '% cleanup-probe'), setup=(FIRST,)),
+    'env-of-act+stdin': _case(setup=(FIRST, 'env -of act VSYM_C17_LEAK = leak', "stdin = 'leaked stdin'", '% after')),
+    'cd': _case(setup=(FIRST, 'dir d', 'cd d', '% after')),
+    'cd-late': _case(setup=(FIRST, 'dir d'), asrt=('cd d', '% assert-probe'), cleanup=('cd -rel-tmp .', '% cleanup-probe')),
+    'timeout': _case(setup=(FIRST, 'timeout = 7', '% after')),
+    'timeout-none-late': _case(setup=(FIRST,), ba=('timeout = none', '% ba-probe'), cleanup=('timeout = 3', '% cleanup-probe')),
+    'def': _case(setup=(FIRST, 'def string %s = leak' % SYM, '%% after @[%s]@' % SYM)),
+    'def-late': _case(setup=(FIRST,), cleanup=('def string %s = leak' % SYM, '% cleanup-probe')),
+    'files': _case(setup=(FIRST, "file leak.txt = 'x'", 'dir leak-dir', 'dir -rel-tmp leak-tmp-dir',
+                          "file -rel-tmp leak-tmp.txt = 'x'", '% after')),
+    'conf': _case(conf=('actor = source % leaked-interp', 'status = FAIL'), setup=(FIRST,), act=('source line',)),
+    'hard-error-after-changes': _case(setup=(FIRST, 'env VSYM_C17_LEAK = leak', 'timeout = 9', 'def string %s = leak' % SYM,
+                                             'dir d', 'cd d', "file leak.txt = 'x'", 'cd non-existing-dir', '% not-reached')),
+    'fail-after-changes': _case(setup=(FIRST, 'env VSYM_C17_LEAK = leak', 'timeout = 9', 'dir d', 'cd d'),
+                                asrt=('exit-code == 72',)),
+}
+HISTORY_KINDS = tuple(HISTORY_CASES)
+
+# Reference (manual): what these cases must end with when nothing else interferes
+HISTORY_IDENTIFIER = {k: 'PASS' for k in HISTORY_KINDS}
+HISTORY_IDENTIFIER.update({'reference-to-undefined-symbol': 'VALIDATION_ERROR', 'conf': 'XPASS',
+                           'hard-error-after-changes': 'HARD_ERROR', 'fail-after-changes': 'FAIL'})
+
+_HISTORY_REF = {}
+
+
+def history_reference(kind: str):
+    """The case of `kind` run ALONE (standalone, with the suite given): (identifier, event keys).  Computed once per
+    process (deterministic, concrete)."""
+    if kind not in _HISTORY_REF:
+        w = World({'h/exactly.suite': suite_file_text(None, ['c.case']), 'h/c.case': HISTORY_CASES[kind]})
+        r = w.run(['--suite', 'h/exactly.suite', 'h/c.case'])
+        w.close()
+        if not isinstance(r.rc, int):
+            raise RuntimeError('harness error: reference run of %s: %r' % (kind, r.rc))
+        _HISTORY_REF[kind] = (r.identifier(), keys(r.events()))
+    return _HISTORY_REF[kind]
+
+
+PRISTINE_FIRST = ('proc', ('first-probe',), 'SDS/act', DEFAULT_ENV_VIEW, DEFAULT_TIMEOUT, ((), ()), None, None, ())
+
+
+def history_observe(kinds: Sequence[str], oracle_bug: bool = False):
+    """A suite that lists one case per element of `kinds`, run by `exactly suite`.
+    -> [(case name, observed (identifier, event keys), expected)]"""
+    names = ['k%d.case' % i for i in range(len(kinds))]
+    files = {'h/exactly.suite': suite_file_text(None, names)}
+    for n, k in zip(names, kinds):
+        files['h/' + n] = HISTORY_CASES[k]
+    w = World(files)
+    r = w.run(['suite', 'h/exactly.suite'])
+    w.close()
+    pc = r.per_case()
+    if pc is None or not r.cwd_preserved or r.sandboxes_left or not isinstance(r.rc, int):
+        return [('suite', 'malformed suite run: rc=%r out=%r err=%r' % (r.rc, r.out, r.err), None)]
+    if [os.path.normpath(c[0]) for c in pc] != ['h/' + n for n in names]:
+        return [('suite', 'cases processed: %r' % ([c[0] for c in pc],), None)]
+    out = []
+    for i, ((name, ident, evs), kind) in enumerate(zip(pc, kinds)):
+        exp = history_reference(kind)
+        if oracle_bug and i > 0 and kinds[i - 1] == 'timeout':
+            exp = (exp[0], [k[:4] + (7,) + k[5:] if k[0] == 'proc' else k for k in exp[1]])  # seeded: demands the leak
+        out.append((name, (ident, keys(evs)), exp))
+    return out
+
+
+def history_ok(kinds: Sequence[str], observations) -> bool:
+    if len(observations) != len(kinds):
+        return False
+    for kind, (name, obs, exp) in zip(kinds, observations):
+        if exp is None or obs != exp:
+            return False
+        # absolute part of the oracle: the documented outcome, and the first instruction sees the pristine state
+        if obs[0] != HISTORY_IDENTIFIER[kind]:
+            return False
+        if not obs[1] or obs[1][0] != PRISTINE_FIRST:
+            if not (kind == 'reference-to-undefined-symbol' and not obs[1]):
+                return False
+    return True
